@@ -68,6 +68,9 @@ Eval(t, d, ins0) ==
     \* an output directory when that file is edited) and whose content is constant
     [] d.kind = "dir"   -> [kind |-> "dir", t |-> t, n |-> d.on, k |-> d.cmd,
                             args |-> IF ins # <<>> /\ ins[1].kind = "src" THEN <<ins[1]>> ELSE <<>>]
+    \* the same, but the entry's content also carries the file's content (so the content-only directory hash notices)
+    [] d.kind = "dirc"  -> [kind |-> "dirc", t |-> t, n |-> d.on, k |-> d.cmd,
+                            args |-> IF ins # <<>> /\ ins[1].kind = "src" THEN <<ins[1]>> ELSE <<>>]
     [] d.kind = "fg"    -> [kind |-> "group", t |-> t, n |-> d.on, k |-> "-", args |-> ins]
 Ideal(s, ds, t) == Eval(t, ds[t], Inputs(s, ds, t))
 
@@ -112,8 +115,10 @@ BuildOne(o, ex, ca, t) ==
 \* ------------------------------------------------------------------ repositories and edits
 Def(kind, cmd, files, deps) == [kind |-> kind, cmd |-> cmd, files |-> files, deps |-> deps, on |-> "out"]
 InitDefs ==
-  IF Shapes \in {"dirflaw", "dircache"}
+  IF Shapes = "dirflaw"
   THEN {<<Def("dir", "k0", {"f1"}, {}), Def("cat", "k0", {"f2"}, {1}), Def("cat", "k0", {}, {1, 2})>>}
+  ELSE IF Shapes = "dircache"
+  THEN {<<Def("dirc", "k0", {"f1"}, {}), Def("cat", "k0", {"f2"}, {1}), Def("cat", "k0", {}, {1, 2})>>}
   ELSE IF Shapes = "rename"
   \* a producer whose output file can be renamed (contents unchanged), a consumer of names, a consumer of contents
   THEN {<<Def("cat", "k0", {"f1"}, {}), Def("names", "k0", {"f2"}, {1}), Def("cat", "k0", {}, {1, 2})>>,
